@@ -147,10 +147,20 @@ impl<T: BitRead> PackedRead for T {
         lower_bound: i64,
         upper_bound: i64,
     ) -> Result<i64, Error> {
-        let range = upper_bound - lower_bound;
-        if range > 0 {
-            Ok(lower_bound
-                + self.read_non_negative_binary_integer(None, Some(range as u64))? as i64)
+        if upper_bound > lower_bound {
+            // exact even for ranges wider than i64::MAX
+            let range = upper_bound.wrapping_sub(lower_bound) as u64;
+            let offset = self.read_non_negative_binary_integer(None, Some(range))?;
+            if offset > range {
+                // the bit-field is wide enough for values beyond the range
+                return Err(ErrorKind::ValueNotInRange(
+                    lower_bound.wrapping_add(offset as i64),
+                    lower_bound,
+                    upper_bound,
+                )
+                .into());
+            }
+            Ok(lower_bound.wrapping_add(offset as i64))
         } else {
             Ok(lower_bound)
         }
@@ -461,12 +471,14 @@ impl<T: BitWrite> PackedWrite for T {
         if value < lower_bound || value > upper_bound {
             return Err(ErrorKind::ValueNotInRange(value, lower_bound, upper_bound).into());
         }
-        let range = upper_bound - lower_bound;
+        // lower_bound <= value <= upper_bound holds here, so the unsigned differences are exact
+        // even for ranges wider than i64::MAX
+        let range = upper_bound.wrapping_sub(lower_bound) as u64;
         if range > 0 {
             self.write_non_negative_binary_integer(
                 None,
-                Some(range as u64),
-                (value - lower_bound) as u64,
+                Some(range),
+                value.wrapping_sub(lower_bound) as u64,
             )
         } else {
             Ok(())
